@@ -62,7 +62,7 @@ static void finish(const char *why)
 }
 
 /* ------------------------------------------------------------------ objects */
-struct fdo { struct iv_fd *o; int fd, peer; int exists; int isreg; int bad; char kind[8]; };
+struct fdo { struct iv_fd *o; int fd, peer; int exists; int isreg; int bad; int fresh; char kind[8]; };
 struct tmo { struct iv_timer *o; int exists; };
 struct tko { struct iv_task *o; int exists; };
 struct evo { struct iv_event *o; int exists; int isreg; };
@@ -183,14 +183,24 @@ static void ts_of(long long ns, struct timespec *ts)
 	ts->tv_nsec = ns % 1000000000LL;
 }
 
+/* the application's objects come from memory full of garbage: IV_*_INIT is all that initialises the library's fields */
+static void *umalloc(size_t n)
+{
+	void *p = malloc(n);
+	if (p == NULL) abort();
+	memset(p, 0xa5, n);
+	return p;
+}
+
 static void mk_fd(int i, const char *kind)
 {
 	int sv[2];
 	F[i].exists = 1;
 	F[i].isreg = 0;
 	snprintf(F[i].kind, sizeof(F[i].kind), "%s", kind);
-	F[i].o = malloc(sizeof(struct iv_fd));
+	F[i].o = umalloc(sizeof(struct iv_fd));
 	IV_FD_INIT(F[i].o);
+	F[i].fresh = 1;
 	if (!strcmp(kind, "bad")) {
 		F[i].fd = 900 + i;	/* never opened: EBADF / POLLNVAL */
 		F[i].peer = -1;
@@ -280,9 +290,18 @@ static void one_action(char *act)
 	if (!strcmp(op, "reg") || !strcmp(op, "try")) {
 		i = objnum(a1, 'f');
 		if (guard && (!F[i].exists || iv_fd_registered(F[i].o))) return;
-		F[i].o->handler_in = (a2 && a2[0] == '1') ? h_in : NULL;
-		F[i].o->handler_out = (a2 && a2[1] == '1') ? h_out : NULL;
-		F[i].o->handler_err = (a2 && a2[2] == '1') ? h_err : NULL;
+		if (F[i].fresh) {
+			/* first registration after IV_FD_INIT: an application only assigns the handlers it wants, the rest is what INIT left */
+			if (a2 && a2[0] == '1') F[i].o->handler_in = h_in;
+			if (a2 && a2[1] == '1') F[i].o->handler_out = h_out;
+			if (a2 && a2[2] == '1') F[i].o->handler_err = h_err;
+			F[i].fresh = 0;
+		} else {
+			F[i].o->handler_in = (a2 && a2[0] == '1') ? h_in : NULL;
+			F[i].o->handler_out = (a2 && a2[1] == '1') ? h_out : NULL;
+			F[i].o->handler_err = (a2 && a2[2] == '1') ? h_err : NULL;
+		}
+		errno = EINTR;	/* errno holds whatever an earlier call left there */
 		logf_("API %s f%d %d %d %d\n", op[0] == 'r' ? "fdRegister" : "fdRegisterTry", i,
 		      F[i].o->handler_in != NULL, F[i].o->handler_out != NULL, F[i].o->handler_err != NULL);
 		if (!F[i].bad) {	/* start from a blocking, inheritable descriptor so that the library has to change it */
@@ -321,7 +340,7 @@ static void one_action(char *act)
 		int from = atoi(a1), to = a2 ? atoi(a2) : from, j;
 		for (j = from; j < to && j < MAXTM; j++) {
 			if (!T[j].exists) {
-				T[j].exists = 1; T[j].o = malloc(sizeof(struct iv_timer)); IV_TIMER_INIT(T[j].o);
+				T[j].exists = 1; T[j].o = umalloc(sizeof(struct iv_timer)); IV_TIMER_INIT(T[j].o);
 				T[j].o->cookie = (void *)(long)(0x20000 + j); T[j].o->handler = h_timer;
 			}
 			if (T[j].exists != 1) continue;
@@ -444,20 +463,20 @@ static void one_action(char *act)
 		char kd = a1[0];
 		i = atoi(a1 + 1) % MAXO;
 		if (kd == 'f' && F[i].exists == 2) {
-			F[i].o = malloc(sizeof(struct iv_fd)); IV_FD_INIT(F[i].o); F[i].o->fd = F[i].fd;
+			F[i].o = umalloc(sizeof(struct iv_fd)); IV_FD_INIT(F[i].o); F[i].fresh = 1; F[i].o->fd = F[i].fd;
 			F[i].o->cookie = (void *)(long)(0x10000 + i); F[i].exists = 1; logf_("INIT f%d\n", i);
 		} else if (kd == 't' && T[i].exists == 2) {
-			T[i].o = malloc(sizeof(struct iv_timer)); IV_TIMER_INIT(T[i].o); T[i].o->cookie = (void *)(long)(0x20000 + i);
+			T[i].o = umalloc(sizeof(struct iv_timer)); IV_TIMER_INIT(T[i].o); T[i].o->cookie = (void *)(long)(0x20000 + i);
 			T[i].o->handler = h_timer; T[i].exists = 1; logf_("INIT t%d\n", i);
 		} else if (kd == 'k' && (K[i].exists == 2 || (K[i].exists == 1 && !iv_task_registered(K[i].o)))) {
-			if (K[i].exists == 2) K[i].o = malloc(sizeof(struct iv_task));
+			if (K[i].exists == 2) K[i].o = umalloc(sizeof(struct iv_task));
 			IV_TASK_INIT(K[i].o); K[i].o->cookie = (void *)(long)(0x30000 + i);
 			K[i].o->handler = h_task; K[i].exists = 1; logf_("INIT k%d\n", i);
 		} else if (kd == 'e' && E[i].exists == 2) {
-			E[i].o = malloc(sizeof(struct iv_event)); IV_EVENT_INIT(E[i].o); E[i].o->cookie = (void *)(long)(0x40000 + i);
+			E[i].o = umalloc(sizeof(struct iv_event)); IV_EVENT_INIT(E[i].o); E[i].o->cookie = (void *)(long)(0x40000 + i);
 			E[i].o->handler = h_event; E[i].exists = 1; logf_("INIT e%d\n", i);
 		} else if (kd == 'r' && R[i].exists == 2) {
-			R[i].o = malloc(sizeof(struct iv_event_raw)); IV_EVENT_RAW_INIT(R[i].o); R[i].o->cookie = (void *)(long)(0x50000 + i);
+			R[i].o = umalloc(sizeof(struct iv_event_raw)); IV_EVENT_RAW_INIT(R[i].o); R[i].o->cookie = (void *)(long)(0x50000 + i);
 			R[i].o->handler = h_raw; R[i].exists = 1; logf_("INIT r%d\n", i);
 		}
 	/* ---- stimuli on the kernel objects behind the descriptors (not library calls) */
@@ -1014,16 +1033,16 @@ int main(int argc, char **argv)
 			int i = atoi(name + 1) % MAXO;
 			if (!strcmp(kind, "fd")) mk_fd(i, arg ? arg : "sock");
 			else if (!strcmp(kind, "timer")) {
-				T[i].exists = 1; T[i].o = malloc(sizeof(struct iv_timer)); IV_TIMER_INIT(T[i].o);
+				T[i].exists = 1; T[i].o = umalloc(sizeof(struct iv_timer)); IV_TIMER_INIT(T[i].o);
 				T[i].o->cookie = (void *)(long)(0x20000 + i); T[i].o->handler = h_timer;
 			} else if (!strcmp(kind, "task")) {
-				K[i].exists = 1; K[i].o = malloc(sizeof(struct iv_task)); IV_TASK_INIT(K[i].o);
+				K[i].exists = 1; K[i].o = umalloc(sizeof(struct iv_task)); IV_TASK_INIT(K[i].o);
 				K[i].o->cookie = (void *)(long)(0x30000 + i); K[i].o->handler = h_task;
 			} else if (!strcmp(kind, "event")) {
-				E[i].exists = 1; E[i].o = malloc(sizeof(struct iv_event)); IV_EVENT_INIT(E[i].o);
+				E[i].exists = 1; E[i].o = umalloc(sizeof(struct iv_event)); IV_EVENT_INIT(E[i].o);
 				E[i].o->cookie = (void *)(long)(0x40000 + i); E[i].o->handler = h_event;
 			} else if (!strcmp(kind, "raw")) {
-				R[i].exists = 1; R[i].o = malloc(sizeof(struct iv_event_raw)); IV_EVENT_RAW_INIT(R[i].o);
+				R[i].exists = 1; R[i].o = umalloc(sizeof(struct iv_event_raw)); IV_EVENT_RAW_INIT(R[i].o);
 				R[i].o->cookie = (void *)(long)(0x50000 + i); R[i].o->handler = h_raw;
 			}
 		} else if (!strcmp(op, "do")) {
